@@ -104,17 +104,44 @@ func (it *faultyIter) Next(ctx context.Context) error {
 	return it.Iter.Next(ctx)
 }
 
+// faultyBatch buffers the operations: the engine's batch is begun only when it is committed (memkv holds its store lock
+// from BeginBatchWrite to Commit; a batch whose commit is answered here, without reaching the engine, must not begin one).
 type faultyBatch struct {
-	storage.BatchWrite
-	f *Faulty
+	f   *Faulty
+	ops []func(b storage.BatchWrite)
 }
 
 // BeginBatchWrite implements storage.KvStorage.
-func (f *Faulty) BeginBatchWrite() storage.BatchWrite {
-	return &faultyBatch{BatchWrite: f.KvStorage.BeginBatchWrite(), f: f}
+func (f *Faulty) BeginBatchWrite() storage.BatchWrite { return &faultyBatch{f: f} }
+
+func (b *faultyBatch) PutIfNotExist(key, val []byte, ttl int64) {
+	b.ops = append(b.ops, func(bw storage.BatchWrite) { bw.PutIfNotExist(key, val, ttl) })
+}
+func (b *faultyBatch) CAS(key, newVal, oldVal []byte, ttl int64) {
+	b.ops = append(b.ops, func(bw storage.BatchWrite) { bw.CAS(key, newVal, oldVal, ttl) })
+}
+func (b *faultyBatch) Put(key, val []byte, ttl int64) {
+	b.ops = append(b.ops, func(bw storage.BatchWrite) { bw.Put(key, val, ttl) })
+}
+func (b *faultyBatch) Del(key []byte) {
+	b.ops = append(b.ops, func(bw storage.BatchWrite) { bw.Del(key) })
+}
+func (b *faultyBatch) DelCurrent(it storage.Iter) {
+	inner := unwrapFaultyIter(it)
+	b.ops = append(b.ops, func(bw storage.BatchWrite) { bw.DelCurrent(inner) })
 }
 
-func (b *faultyBatch) DelCurrent(it storage.Iter) { b.BatchWrite.DelCurrent(unwrapFaultyIter(it)) }
+func (b *faultyBatch) run(ctx context.Context) error {
+	bw := b.f.KvStorage.BeginBatchWrite()
+	for _, op := range b.ops {
+		op(bw)
+	}
+	err := bw.Commit(ctx)
+	b.f.mu.Lock()
+	b.f.lastApplied = err == nil
+	b.f.mu.Unlock()
+	return err
+}
 
 func (b *faultyBatch) Commit(ctx context.Context) error {
 	b.f.mu.Lock()
@@ -122,11 +149,7 @@ func (b *faultyBatch) Commit(ctx context.Context) error {
 	b.f.commitErr = nil
 	b.f.mu.Unlock()
 	if e == nil {
-		err := b.BatchWrite.Commit(ctx)
-		b.f.mu.Lock()
-		b.f.lastApplied = err == nil
-		b.f.mu.Unlock()
-		return err
+		return b.run(ctx)
 	}
 	if !apply {
 		b.f.mu.Lock()
@@ -134,11 +157,7 @@ func (b *faultyBatch) Commit(ctx context.Context) error {
 		b.f.mu.Unlock()
 		return e
 	}
-	err := b.BatchWrite.Commit(ctx)
-	b.f.mu.Lock()
-	b.f.lastApplied = err == nil
-	b.f.mu.Unlock()
-	if err != nil {
+	if err := b.run(ctx); err != nil {
 		// the engine itself refused: its own answer
 		return err
 	}
